@@ -222,7 +222,19 @@ def build(deco, body, rt):
             s = wrap(s) if wrap is not None else s
             return deduplicate()(A(sync_fn=s)(fn))
         if deco == "aretry":
-            return aretry(ValueError, max_tries=2, sleep=0)(A()(fn))
+            # every call fails on its first try and succeeds on the second, which is the last one permitted
+            inner_fn = A()(fn)
+            tries = {"n": 0}
+
+            @A()
+            def flaky(*a, **k):
+                tries["n"] += 1
+                if tries["n"] % 2 == 1:
+                    raise ValueError("first try")
+                v = yield inner_fn.asynq(*a, **k)
+                return v
+
+            return aretry(ValueError, max_tries=2, sleep=0)(flaky)
         if deco == "alru":
             return alru_cache(maxsize=8)(A()(fn))
         if deco == "per_instance":
